@@ -3,10 +3,15 @@
 (/tmp/wt_<ID>), store it under /verif/seeded/<ID>/, run our checks against it on /repo, revert."""
 import sys, os, subprocess, json, shutil, re
 pid = sys.argv[1]
-checks = sys.argv[2:] or [pid]
+suffix = ""
+rest = sys.argv[2:]
+if rest and rest[0].startswith("--suffix="):
+    suffix = rest[0].split("=", 1)[1]
+    rest = rest[1:]
+checks = rest or [pid]
 wt = "/tmp/wt_%s" % pid
 out = os.path.join(wt, "_out")
-dst = "/verif/seeded/%s" % pid
+dst = "/verif/seeded/%s%s" % (pid, suffix)
 os.makedirs(dst, exist_ok=True)
 for f in ("patch.diff", "zz_seed_demo_test.go", "notes.md"):
     shutil.copy(os.path.join(out, f), os.path.join(dst, f if f != "zz_seed_demo_test.go" else "demo_test.go.txt"))
@@ -34,19 +39,19 @@ meta["confirmed"] = meta["demo_with_change_fails"] and meta["demo_without_change
 # our checks against it
 res = {}
 if meta["confirmed"]:
-    subprocess.check_call(["git", "-C", "/repo", "apply", os.path.join(dst, "patch.diff")])
     try:
         for c in checks:
-            p = subprocess.run(["./check", c], cwd="/verif", stdout=subprocess.PIPE, text=True)
+            p = subprocess.run(["./check", c], cwd="/verif", stdout=subprocess.PIPE, text=True,
+                               env=dict(os.environ, VERIF_REPO=wt))
             lines = [l for l in p.stdout.splitlines() if l.startswith("VIOLATION") or l.startswith(c)]
             res[c] = {"exit": p.returncode, "lines": lines[-3:]}
     finally:
-        subprocess.call(["git", "-C", "/repo", "checkout", "--", "."])
+        pass
 meta["checks_run"] = res
 meta["detected_by"] = [c for c, r in res.items() if r["exit"] != 0]
 notes = open(os.path.join(dst, "notes.md")).read()
 meta["needs_to_manifest"] = notes[:1500]
-meta["what_was_run"] = "demo test with/without the change in the scratch worktree; full suite with the change; ./check %s on /repo with patch applied, then reverted" % " ".join(checks)
+meta["what_was_run"] = "demo test with/without the change in the scratch worktree; full suite with the change; ./check %s with VERIF_REPO pointing at the scratch worktree (change applied)" % " ".join(checks)
 json.dump(meta, open(os.path.join(dst, "meta.json"), "w"), indent=1)
 print(json.dumps({k: meta[k] for k in ("property", "confirmed", "demo_with_change_fails", "demo_without_change_passes", "suite_with_change_unexpected_failures", "detected_by")}))
 for c, r in res.items():
